@@ -333,7 +333,8 @@ def check_case(ctx, case):
                     inner = q.limit(a, offset=b % 3)
                     outer = select(y for y in inner)
                     window = base[b % 3:b % 3 + a]
-                    lo = (a + b) % (n + 4)      # includes starts beyond the inner window
+                    # starts inside and beyond the inner window (beyond it the remaining limit would become negative)
+                    lo = (a + 1 + b % 2) if case['flag'] else (a + b) % (n + 4)
                     got = norm(outer[lo:])
                     exp = window[lo:]
                     if sorted(got, key=repr) != sorted(exp, key=repr):
